@@ -27,8 +27,10 @@ namespace
 template<typename PointType>
 void flipNormalTowardOriginCoordinate(const PointType & point, PointType & normal)
 {
-  if (normal.dot(point / point.norm()) > 0) {
-    normal *= -1;
+  // only the Cartesian part of a (possibly homogeneous) point carries a direction
+  constexpr int DIM = romea::core::PointTraits<PointType>::DIM;
+  if (normal.template head<DIM>().dot(point.template head<DIM>()) > 0) {
+    normal.template head<DIM>() *= -1;
   }
 }
 
